@@ -426,11 +426,16 @@ pub fn run(prop: &'static str, tier: Tier, seed: u64) -> i32 {
             return 2;
         }
     };
-    if let Err(e) = props::self_check(prop) {
+    // the self-checks and the derivation of the token alphabet run the subject: its panics are
+    // caught there (quietly) and become witnesses; the driver's own panics stay loud
+    install_panic_hook();
+    let self_check = props::self_check(prop);
+    let spaces = props::spaces(prop, tier, seed);
+    let _ = std::panic::take_hook();
+    if let Err(e) = self_check {
         eprintln!("machinery error: self-check failed: {}", e);
         return 2;
     }
-    let spaces = props::spaces(prop, tier, seed);
     if spaces.is_empty() {
         eprintln!("machinery error: property {} has no spaces for tier {}", prop, tier.name());
         return 2;
